@@ -76,7 +76,8 @@ Definition gen_prog : prog := mkProg
   [StoreCli; Notify]
   ["help"; "copyright"; "version"; "buildinfo"]
   "config"
-  [StoreCfg; FoldAliases [("RFVoltage", "AcceleratingVoltage"); ("SyncFreq", "SynchrotronFrequency"); ("steps", "StepsPerTs")]; Notify].
+  [StoreCfg; FoldAliases [("RFVoltage", "AcceleratingVoltage"); ("SyncFreq", "SynchrotronFrequency"); ("steps", "StepsPerTs")]; Notify]
+  true.
 
 Definition gen_wrules : wrules := mkW
   ["HaissinskiIterations"; "InitialDistParam"; "RotationType"; "SyncFreq"; "steps"; "RFVoltage"; "run_anyway"; "SaveSourceMap"]
